@@ -639,6 +639,7 @@ impl QueryParser {
                     name : model_field.name.clone(),
                     is_system: model_field.is_system,
                     field_type: FieldType::Float,
+                    default_value: model_field.default_value.clone(),
                     ..Default::default()
                 };
                 QueryField{
@@ -665,6 +666,7 @@ impl QueryParser {
                     name : model_field.name.clone(),
                     is_system: model_field.is_system,
                     field_type: FieldType::Float,
+                    default_value: model_field.default_value.clone(),
                     ..Default::default()
                 };
                 QueryField{
@@ -691,6 +693,7 @@ impl QueryParser {
                     name : model_field.name.clone(),
                     is_system: model_field.is_system,
                     field_type: FieldType::Float,
+                    default_value: model_field.default_value.clone(),
                     ..Default::default()
                 };
                 QueryField{
@@ -716,6 +719,7 @@ impl QueryParser {
                     name : model_field.name.clone(),
                     is_system: model_field.is_system,
                     field_type: FieldType::Float,
+                    default_value: model_field.default_value.clone(),
                     ..Default::default()
                 };
                 QueryField{
